@@ -46,6 +46,9 @@ pub fn main_entry(args: Vec<String>) -> i32 {
     if args.len() >= 2 && args[1] == "--worker" {
         return worker_main(&args[2..]);
     }
+    if args.len() >= 3 && args[1] == "--child" && args[2] == "save-trace" {
+        return crate::systrace::child_main(&args[3..]);
+    }
     if args.len() >= 3 && args[1] == "replay" {
         return replay_main(&args[2]);
     }
